@@ -263,7 +263,6 @@ type gstate struct {
 	nextID  int
 	hasMV   bool
 	l1      bool // generating for the processor-level layer
-	noSort  bool // see the "rex" case of genCmd
 }
 
 func (g *gstate) has(name string) bool {
@@ -297,7 +296,17 @@ func (g *gstate) kindOf(name string) string {
 	return ""
 }
 
+// touch records that the values of a column were rewritten: it no longer contributes to uniqueness.
+func (g *gstate) touch(name string) {
+	for _, u := range g.uniq {
+		if u == name {
+			g.uniq = nil
+		}
+	}
+}
+
 func (g *gstate) set(name, kind string) {
+	g.touch(name)
 	for i, f := range g.fields {
 		if f.name == name {
 			g.fields[i].kind = kind
@@ -545,7 +554,7 @@ func genCmd(t *rapid.T, g *gstate, first, last bool, nrows int) []*Cmd {
 		return []*Cmd{{Op: op, N: rapid.IntRange(0, nrows+2).Draw(t, "n"), HasN: true}}
 	case "sort":
 		cand := g.ofKinds(kNum, kNumNull, kStr, kStrNull, kWild, kUniq, kTime)
-		if len(cand) == 0 || g.noSort {
+		if len(cand) == 0 {
 			return nil
 		}
 		var keys []SortKey
@@ -624,13 +633,6 @@ func genCmd(t *rapid.T, g *gstate, first, last bool, nrows int) []*Cmd {
 			return nil
 		}
 		f := pick(t, cand, "rexField")
-		if g.l1 {
-			// Harness limit, not a property zone: rex gives a batch an extra (all-null) column named ""
-			// only if the batch has a match; merging sorted batches that disagree on their columns is
-			// only possible for IQRs without RRCs (the synthetic upstream), never for the searcher's.
-			// Layer 2 generates rex → sort.
-			g.noSort = true
-		}
 		u, c := g.fresh("user"), g.fresh("cnt")
 		var pat string
 		var groups []string
@@ -659,7 +661,7 @@ func genCmd(t *rapid.T, g *gstate, first, last bool, nrows int) []*Cmd {
 		}
 		return []*Cmd{c}
 	case "top", "rare":
-		cand := g.ofKinds(kStr, kStrNull, kNum)
+		cand := g.ofKinds(kStr, kNum)
 		if len(cand) == 0 {
 			return nil
 		}
@@ -684,7 +686,7 @@ func genCmd(t *rapid.T, g *gstate, first, last bool, nrows int) []*Cmd {
 		}
 		var nf []gfield
 		for _, f := range append(append([]string(nil), c.By...), c.Fields...) {
-			nf = append(nf, gfield{f, nullableKind(g.kindOf(f))})
+			nf = append(nf, gfield{f, g.kindOf(f)})
 		}
 		// "percent" exists too but is never referenced by later commands (its rounding is unspecified)
 		g.fields = append(nf, gfield{"count", kNum})
@@ -776,8 +778,8 @@ func genCmd(t *rapid.T, g *gstate, first, last bool, nrows int) []*Cmd {
 		if len(c.Aggs) == 0 {
 			c.Aggs = []Agg{{Fn: "count", As: g.fresh("st")}}
 		}
-		if by := g.ofKinds(kStr, kStrNull, kNum); len(by) > 0 && rapid.IntRange(0, 3).Draw(t, "statsBy") > 0 {
-			if g.has("h") && g.has("k") && rapid.IntRange(0, 2).Draw(t, "hk") == 0 {
+		if by := g.ofKinds(kStr, kNum); len(by) > 0 && rapid.IntRange(0, 3).Draw(t, "statsBy") > 0 {
+			if g.kindOf("h") == kStr && g.kindOf("k") == kStr && rapid.IntRange(0, 2).Draw(t, "hk") == 0 {
 				c.By = []string{"h", "k"}
 			} else {
 				c.By = pickSome(t, by, 1, 2, "byField")
@@ -785,7 +787,7 @@ func genCmd(t *rapid.T, g *gstate, first, last bool, nrows int) []*Cmd {
 		}
 		var nf []gfield
 		for _, f := range c.By {
-			nf = append(nf, gfield{f, nullableKind(g.kindOf(f))})
+			nf = append(nf, gfield{f, g.kindOf(f)})
 		}
 		for _, a := range c.Aggs {
 			k := kNumNull
